@@ -17,7 +17,8 @@
      a_clen    int(req.headers.get('Content-Length', '0'))
      a_path    the path guard (str.encode, quote) and the redirect constructor
      a_excreq  wrappers.Request(sock, server=...) inside _on_exception (getpeername())
-     a_app     the status the application answers a dispatched request with
+     a_app     the status the application answers a dispatched request with; Raise = a handler of the
+               request event raised (e.g. the dispatcher's body processing on a lone surrogate)
    Nothing about *which* bytes make an oracle raise is modelled: the theorems hold for
    every answer.  No proofs and no axioms in this file. *)
 From Coq Require Import List NArith ZArith Bool Arith.
@@ -52,7 +53,7 @@ Record answers := {
   a_clen : res Z;
   a_path : res pathans;
   a_excreq : res unit;
-  a_app : N }.
+  a_app : res N }.                  (* Raise: a handler of the request event raised *)
 
 (* per-connection state: membership in HTTP._buffers, entry of HTTP._clients *)
 Record conn := { buf : bool; cli : option reqinfo }.
@@ -200,7 +201,14 @@ Definition handle (c : conn) (a : answers) (e : iev) : conn * list eff * list ie
         | Some c' => (c', [EWrite st v cl false], if cl then [IClose] else [], [])
         | None => (c, [EWrite st v cl false; ECrash], if cl then [IClose] else [], [])
         end
-  | IRequest ri => (c, [EDispatch], [IResponse (a_app a) (resp_version (rver ri)) (negb (keepalive ri)) (is_head ri)], [])
+  | IRequest ri =>
+      match a_app a with
+      | Ret st => (c, [EDispatch], [IResponse st (resp_version (rver ri)) (negb (keepalive ri)) (is_head ri)], [])
+      | Raise =>
+          (* request_failure -> _on_request_failure: httperror(req, res) with the registered pair -> 500, close;
+             the exception event that follows finds req.handled and returns (repaired) *)
+          (c, [EDispatch], [IResponse 500 (resp_version (rver ri)) true (is_head ri)], [])
+      end
   | IClose => (c, [EClose], [], [])
   end.
 
